@@ -72,6 +72,17 @@ def bias_world(r, W, anp):
                                    [{'protocol': 'SCTP', 'port': 1, 'endPort': 65535}], [{'protocol': r.choice(gen.PROTOS), 'port': nm}]]):
             W['netpols'].append({'ns': w['ns'], 'name': 'full%d' % i, 'podSelector': {}, 'policyTypes': pt, d: [{key: [{'namespaceSelector': {}}], 'ports': ports}]})
         W['netpols'].append({'ns': w['ns'], 'name': 'full9', 'podSelector': {}, 'policyTypes': pt, d: [{key: [{'podSelector': {'matchLabels': {'role': 'q'}}}]}]})
+    if not anp and r.random() < 0.25 and W['workloads']:
+        # two policies select one workload: one already allows everything (all addresses, no ports), the other opens some ports to the
+        # whole cluster - the cluster-wide exposure must be recorded whichever of the two the map yields first
+        w = r.choice(W['workloads'])
+        d = r.choice(['ingress', 'egress'])
+        key = 'from' if d == 'ingress' else 'to'
+        pt = ['Ingress' if d == 'ingress' else 'Egress']
+        sel = {'matchLabels': dict(w['labels'])} if w['labels'] else {}
+        W['netpols'].append({'ns': w['ns'], 'name': 'allip', 'podSelector': sel, 'policyTypes': pt, d: [{key: [{'ipBlock': {'cidr': '0.0.0.0/0'}}]}]})
+        W['netpols'].append({'ns': w['ns'], 'name': 'allns', 'podSelector': sel, 'policyTypes': pt,
+                             d: [{key: [{'namespaceSelector': {}}], 'ports': [{'protocol': 'TCP', 'port': r.choice(gen.PORTS)}]}]})
     if r.random() < 0.3:
         # a Route and an Ingress that certainly yield {ingress-controller} lines: own namespace without policies
         W['workloads'].append({'kind': 'Deployment', 'ns': 'nsr', 'name': 'wr', 'labels': {'app': 'r'}, 'replicas': 1, 'owner': None, 'omit_ns': False,
